@@ -8,7 +8,7 @@ import GV.Proofs.MethodSet
 namespace GV.Driver.C09
 open GV.Hex GV.Types GV.Spec.GoTypes
 
-inductive Mode | model | spec | diag
+inductive Mode | model | spec | diag | cover
 deriving DecidableEq
 
 structure DS where
@@ -111,7 +111,7 @@ def sstOf (d : DS) : SSt := { st := d.st, recs := d.recs }
 /-- a canonicalising constructor call -/
 def ctorStep (mode : Mode) (d : DS) (k : Nat) (c : List String) : Option (DS × String) := do
   let ct ← parseCtor d c
-  if mode = .model then
+  if (mode = .model ∨ mode = .cover) then
     let r := canon d.st ct
     let (d, n) := ({ d with st := r.1 }).bind k r.2
     some (d, "=" ++ n)
@@ -122,13 +122,13 @@ def ctorStep (mode : Mode) (d : DS) (k : Nat) (c : List String) : Option (DS × 
 
 /-- one script operation -/
 def step (mode : Mode) (d : DS) (k : Nat) (a : List String) : Option (DS × String) :=
-  let ptrOf : Nat → Option Nat := if mode = .model then ptrOfM d.st else ptrOfS (sstOf d)
+  let ptrOf : Nat → Option Nat := if (mode = .model ∨ mode = .cover) then ptrOfM d.st else ptrOfS (sstOf d)
   match a with
   | ["N", kind, str, named, pkg] => do
     let kind ← kind.toNat?
     let str ← unhex str
     let pkg ← unhex pkg
-    if mode = .model then
+    if (mode = .model ∨ mode = .cover) then
       let r := newType d.st kind str (bool01 named) pkg
       let (d, n) := ({ d with st := r.1 }).bind k r.2
       some (d, "=" ++ n)
@@ -147,14 +147,15 @@ def step (mode : Mode) (d : DS) (k : Nat) (a : List String) : Option (DS × Stri
   | ["s", r] => do some (d, hex (d.st.get (← d.ref r)).str)
   | ["k", r] => do
     let id ← d.ref r
-    let b := if mode = .model then comparableM d.st (d.st.size + 1) id else comparableS d.st (d.st.size + 1) id
+    let b := if (mode = .model ∨ mode = .cover) then comparableM d.st (d.st.size + 1) id else comparableS d.st (d.st.size + 1) id
     some (d, if b then "1" else "0")
   | ["q", r] => do
     let id ← d.ref r
     match mode with
     | .model => some ({ d with st := methodSetSt d.st id }, showMethods d (methodSet d.st id))
     | .spec => some (d, showMethods d (specMethodSet d.st ptrOf id))
-    | .diag => some (d, showDiag (diag d.st ptrOf id) ++ (if GV.Props.C09.theoremCovers d.st id then "+thm" else ""))
+    | .diag => some (d, showDiag (diag d.st ptrOf id))
+    | .cover => some ({ d with st := methodSetSt d.st id }, if GV.Props.C09.theoremCovers d.st id then "thm" else "-")
   | [op, v, t] =>
     if op == "a" ∨ op == "x" then do
       let dyn ← if v == "n" then some none else (d.ref v).map some
@@ -171,23 +172,28 @@ def step (mode : Mode) (d : DS) (k : Nat) (a : List String) : Option (DS × Stri
           | some v => if (d.st.get t).kind = kInterface then
               (firstMissing (specMethodSet d.st ptrOf v) (d.st.get t).methods).getD [] else []
         some (d, if op == "a" then (if ok then "1" else "0") else if ok then "ok" else "panic." ++ hex missing)
+      | .cover =>
+        let r := assertType d.st dyn t
+        some ({ d with st := r.1 }, match dyn with
+          | some v => if GV.Props.C09.theoremCovers d.st v then "thm" else "-"
+          | none => "-")
       | .diag =>
         match dyn with
         | some v =>
-          some (d, showDiag (diag d.st ptrOf v) ++ (if GV.Props.C09.theoremCovers d.st v then "+thm" else ""))
+          some (d, showDiag (diag d.st ptrOf v))
         | none => some (d, "clean")
     else if op == "E" then do
       let x ← parsePayload.parseVal d v.toList
       let y ← parsePayload.parseVal d t.toList
-      let r := if mode = .model then ifaceEqual d.st x y else ifaceEqS d.st x y
+      let r := if (mode = .model ∨ mode = .cover) then ifaceEqual d.st x y else ifaceEqS d.st x y
       some (d, match r with | .tt => "true" | .ff => "false" | .panic => "panic")
     else ctorStep mode d k a
   | c => ctorStep mode d k c
 
 def initDS (mode : Mode) : DS :=
   let base := (List.range 21).map fun i => (i, s!"b{i}")
-  { st := if mode = .model then GV.Types.init else initS.st,
-    recs := if mode = .model then [] else initS.recs,
+  { st := if (mode = .model ∨ mode = .cover) then GV.Types.init else initS.st,
+    recs := if (mode = .model ∨ mode = .cover) then [] else initS.recs,
     names := base, byName := base.map fun p => (p.2, p.1) }
 
 def runFamily (mode : Mode) (script : String) : String :=
@@ -206,6 +212,7 @@ def handle : List String → String
   | ["fam", s] => runFamily .model s
   | ["sfam", s] => runFamily .spec s
   | ["dfam", s] => runFamily .diag s
+  | ["cfam", s] => runFamily .cover s
   | _ => "bad-op"
 
 end GV.Driver.C09
